@@ -11,10 +11,10 @@ pub fn prop() -> Prop {
     Prop {
         id: "C05",
         level: "model_checking",
-        rule: "(i) all byte strings of length <=5 (thorough 6) over a 24-byte JSON alphabet and <=4 (5) over 28 bytes incl. invalid UTF-8, under every --on-error policy up to length 4 (5); (ii) every prefix and every single-byte corruption (by each of 28 bytes, at each offset) of every U1 document and of touching pairs over the core; (iii) structural families up to 4 KiB with nesting <= 64; (iv) every pure function applied to every argument tuple (arity <= 3) over a 24-atom menu incl. ill-typed ones, on 4 inputs; (v) multi-byte characters at every byte offset 0..40 of string arguments and of expression texts in every option; (vi) %+every ASCII byte in strftime formats, out-of-range instants. Non-trivial = the input is not a clean stream / the call is not the documented happy path; distinct by construction",
+        rule: "(i) all byte strings of length <=5 (thorough 6) over a 24-byte JSON alphabet and <=4 (5) over 28 bytes incl. invalid UTF-8, under every --on-error policy up to length 4 (5); (ii) every prefix and every single-byte corruption (by each of 28 bytes, at each offset) of every U1 document and of touching pairs over the core; (iii) structural families up to 4 KiB with nesting <= 64; (iv) every pure function applied to every argument tuple (arity <= 3) over a 24-atom menu incl. ill-typed ones, on 4 inputs; (v) multi-byte characters at every byte offset 0..40 of string arguments and of expression texts in every option; (vi) %+every ASCII byte in strftime formats, out-of-range instants. (ix) ~45 expressions that come back into the function they are in (parse_selection inside a parsed selection - literal, through the data, inside a lambda, three levels -, macros that refer to themselves and end, every lambda-taking function inside its own lambda) x 4 policies x 2 cache sizes. Non-trivial = the input is not a clean stream / the call is not the documented happy path; distinct by construction",
         explanation: "exhaustive enumeration; oracle: the run returns (Ok or Err) without a panic (caught in-process), abort or hang (worker watchdog + breadcrumb)",
         assumptions: COMMON_ASSUMPTIONS.to_vec(),
-        guards: vec!["object-with-many-kinds-of-member-names", "regex-calls-nested-under-a-cache", "invalid-utf8-input", "policy-panic", "truncated-document", "ill-typed-call", "multibyte-at-offset-32", "strftime-byte"],
+        guards: vec!["expression-that-comes-back-into-its-own-function", "object-with-many-kinds-of-member-names", "regex-calls-nested-under-a-cache", "invalid-utf8-input", "policy-panic", "truncated-document", "ill-typed-call", "multibyte-at-offset-32", "strftime-byte"],
         budget_s: (120, 3000),
         single_worker: false,
         run,
@@ -662,7 +662,69 @@ fn part_viii(ctx: &mut Ctx) {
     ctx.level_done("viii:objects-of-5..130-members-with-names-of-several-kinds-x-10-object-functions");
 }
 
+
+/// ix: expressions that come back into the function they are in - a selection text that is parsed and evaluated inside a
+/// parsed selection, a macro that refers to itself and ends, every function with a lambda argument inside its own
+/// lambda, a regex call in the subject and in the pattern of a regex call - on records that make each of them take
+/// several turns. Legal programs all of them: none may panic.
+fn part_ix(ctx: &mut Ctx) {
+    let js = |t: &str| crate::refmodel::json::to_text(&crate::refmodel::json::V::s(t));
+    let mut exprs: Vec<String> = Vec::new();
+    // parse_selection inside parse_selection: literal, through the data, inside a lambda, three levels
+    let inner = "(len .l)";
+    let l1 = format!("(parse_selection {})", js(inner));
+    let l2 = format!("(parse_selection {})", js(&l1));
+    let l3 = format!("(parse_selection {})", js(&l2));
+    exprs.extend([l1.clone(), l2.clone(), l3.clone()]);
+    exprs.push(format!("(map .l {})", format!("(parse_selection {})", js("(parse_selection \"(+ . 1)\")"))));
+    exprs.push("(parse_selection .e)".into());
+    exprs.push("(parse_selection (parse_selection .e2))".into());
+    exprs.push(format!("(push [] {l2} {l2} {l1})"));
+    exprs.push(format!("(parse_selection {})", js("(map .l (parse_selection \"(parse_selection \\\"(* . 2)\\\")\"))")));
+    exprs.push(format!("(sort_by .l {})", js_sel("(- 0 (parse_selection \"(+ . 0)\"))")));
+    // macros that refer to themselves and end
+    for f in ["+", "\"+\"", "concat", "push", "and", "default"] {
+        exprs.push(format!("(define \"rec\" (default ({f} .value (| .next (@ \"rec\"))) .value) (@ \"rec\"))"));
+        exprs.push(format!("(define \"rec\" (? (number? .n) (? (> .n 0) ({f} .value (| (put . \"n\" (- .n 1)) @rec)) .value) .nokey) @rec)"));
+    }
+    // every function that takes a lambda, inside its own lambda, twice
+    for f in ["map", "filter", "flat_map", "sort_by", "group_by", "any", "all", "first", "map_values", "filter_values", "map_keys", "fold"] {
+        let (src, inner_src) = if f.ends_with("values") || f.ends_with("keys") { (".o", "(put {} \"k\" .)") } else { (".ll", ".") };
+        if f == "fold" {
+            exprs.push("(fold .ll 0 (+ .so_far (fold .value 0 (+ .so_far .value))))".into());
+            exprs.push("(fold .ll [] (push .so_far (fold .value 0 (+ .so_far (fold (push [] .value .value) 0 (+ .so_far .value))))))".into());
+        } else {
+            exprs.push(format!("({f} {src} ({f} {inner_src} ({f} (push [] . .) .)))"));
+            exprs.push(format!("({f} {src} ({f} {inner_src} true))"));
+        }
+    }
+    let input = "{\"l\": [1, 2, 3], \"ll\": [[1, 2], [3], []], \"o\": {\"a\": 1, \"b\": [2]}, \"e\": \"(parse_selection .f)\", \"f\": \"(len .e)\", \"e2\": \"\\\".e\\\"\", \"value\": \"1\", \"n\": 3, \"next\": {\"value\": \"20\", \"next\": {\"value\": \"300\"}}}\n";
+    let two = format!("{input}{input}");
+    for (ei, e) in exprs.iter().enumerate() {
+        if !ctx.mine() {
+            continue;
+        }
+        for pol in POLICIES {
+            for cache in ["0", "2"] {
+                let args = vec![format!("--on-error={pol}"), format!("--regular-expression-cache-size={cache}"), format!("--select={e}=x"), format!("--filter=(default (null? {e}) true)")];
+                let case = Case::owned(args, two.clone().into_bytes());
+                let obs = ctx.run(&case);
+                ctx.nontrivial();
+                ctx.guard("expression-that-comes-back-into-its-own-function");
+                ctx.transition(&("re-entrant", ei, pol));
+                judge(ctx, &case, &obs, "re-entrant-expression", &e.chars().take(40).collect::<String>());
+            }
+        }
+    }
+    ctx.level_done("ix:expressions-that-come-back-into-the-function-they-are-in(parse_selection,self-referring-macros,lambdas-in-their-own-lambda)");
+}
+
+fn js_sel(t: &str) -> String {
+    t.to_string()
+}
+
 fn run(ctx: &mut Ctx) {
+    part_ix(ctx);
     part_viii(ctx);
     part_vii(ctx);
     part_iii(ctx);
